@@ -444,7 +444,10 @@ PROPS = {
              'alternating_loop_terminates_partial (exact nearest-neighbour search without ties: the unguarded loop exits) and '
              'alternating_loop_tie_cycle (with ties it need not - D30). Every call of the real find_component_connection_edge made in the watched children '
              'is recorded round by round (loop key at the top of the iteration, sorted search result) and replayed through the Lean altLoopSeen with the '
-             'recorded results as search table: same keys, same number of searches, same best edge. The model is tied to the code by bit-exact comparison of tau_rand_int / tau_rand '
+             'recorded results as search table: same keys, same number of searches, same best edge; on integer-valued data (lattice / duplicate families, '
+             'euclidean / manhattan) every row of every restricted search (custom_search_closure) is compared bit for bit - raw heap and sorted row - '
+             "with the search model of C02 (Model/Search.lean: the closure is the query closure seeded with candidate_indices as its leaf and no random "
+             'samples), so C02.search_sound / search_terminates apply to it. The model is tied to the code by bit-exact comparison of tau_rand_int / tau_rand '
              'streams and of rejection_sample (samples and generator state) at kernel level and for every rejection_sample call the real '
              'find_component_connection_edge makes; connect_graph itself is run on generated multi-component data sets (3 metrics, 2..8 clusters of '
              '1..40 points, Gaussian / integer-lattice / duplicate-heavy) in child processes under soft and hard deadlines with a loop-state recorder (a '
@@ -452,7 +455,7 @@ PROPS = {
              'at the true metric distance) is evaluated on its real output',
      'note': 'trusted: Lean kernel + {propext, Classical.choice, Quot.sound}; the sampled exact correspondence between the Lean model and utils.py '
              '(generator, rejection_sample, alternating loop control + best-edge bookkeeping given the recorded search results); the restricted search itself '
-             '(custom_search_closure) is an INPUT of the loop model - termination is proved for every deterministic search, determinism of the real search '
+             '(custom_search_closure) is an INPUT of the loop model (and compared with the C02 search model only on integer-valued data) - termination is proved for every deterministic search, determinism of the real search '
              '(no hidden state besides the arguments) is observed by the replay, and each single search is a finite graph walk (visited table, C02); that the '
              'restricted search only returns points of the other component '
              'rests on C16 (search graph is a subgraph of the symmetrised neighbour graph); weights are compared with a float64 reference at relative '
